@@ -161,6 +161,17 @@ def parts(ctx):
                                                               div=False, pow_=False, nary3=True),
            depth=2, shards=16, mid_ops=_names("plus", "minus", "times"),
            top_ops=_names("plus3", "times3"), max_new=1 if q else 2))
+    # coefficients in (-1, 0), below -1 and non-integral, in both creation orders of constants and symbols
+    _AR = ("plus", "minus", "times")
+    for cf in (False, True):
+        sfx = "-constfirst" if cf else ""
+        A(dict(name="lra-coeff%s-d2" % sfx, depth=2, shards=16,
+               profile=(lambda cf: lambda e: P.lra_profile(e, consts=(Fraction(-1, 2), Fraction(-3, 2), Fraction(1, 3)),
+                                                           div=False, pow_=False, consts_first=cf))(cf),
+               mid_ops=_names(*_AR), top_ops=_names("plus", "minus", "times", "le", "eq")))
+    A(dict(name="lia-coeff-constfirst-d2", depth=2, shards=16,
+           profile=lambda e: P.lia_profile(e, consts=(-1, -2, 3), big=False, div=False, pow_=False, consts_first=True),
+           mid_ops=_names(*_AR), top_ops=_names("plus", "minus", "times", "le", "eq")))
     if not q:
         A(dict(name="lia-d3", profile=lambda e: P.lia_profile(e, consts=(0, 2), big=False, nsyms=2, pow_=False),
                depth=3, shards=256, mid_ops=_names("plus", "minus", "times"),
